@@ -1,10 +1,30 @@
-(* C01 — property theorems only: each closed by [exact] of a lemma proved elsewhere. *)
-From Coq Require Import List String.
-From Helm Require Import Engine.Types Engine.Eff Engine.Ops Engine.Cluster Engine.Seq Engine.SeqProofs.
+(* C01 — Release revision ledger stays well-formed under any history and faults.
+   Property theorems only: each closed by [exact] of a lemma proved in Engine/Ledger*.v.
 
-(* Stored revisions stay pairwise distinct: for EVERY program over the effect signature
-   (hence for install, upgrade, rollback, uninstall with any flags), every cluster behaviour
-   [kh], every placement of a storage-write failure and every crash point. *)
+   Vocabulary (all defined in Engine/Ledger*.v, all computable or first-order):
+     revs l            the revisions of a ledger                     (SeqProofs)
+     mx l              the highest revision of l, 0 if l is empty    (LedgerBase)
+     creates t         the revisions of the TStore "create" events of a trace, in order
+     ndep l            the number of records with status SDeployed   (LedgerDep)
+     succ_new l0 l' x  x is in l', deployed, has revision 1 + mx l0 and is the maximum of l'
+     prev_superseded l0 l'   every revision deployed in l0 that still exists in l' is superseded
+     run_ops           a history of (operation, storage-fault plan) over ANY cluster handler
+     h2_op / h2_hist / h2_history   "no install --replace while a revision is deployed" (K1)
+     pruned h m        the revisions Storage.Create deletes for MaxHistory = S m
+   Quantification: every cluster handler [kh] (responses and state are arbitrary), every
+   storage-fault plan [f] (n-th write fails, crash before the n-th mutating effect), every
+   history; no bound on any length. *)
+From Coq Require Import List String Bool Arith.
+From Helm Require Import Engine.Types Engine.Eff Engine.Ops Engine.Cluster Engine.Seq Engine.SeqProofs
+  Engine.LedgerBase Engine.LedgerPieces Engine.LedgerRev Engine.LedgerDep Engine.LedgerPrune Engine.LedgerEx.
+Import ListNotations.
+Local Open Scope string_scope.
+
+(* ------------------------------------------------------------------ *)
+(* revisions are pairwise distinct                                      *)
+
+(* for EVERY program over the effect signature (hence install, upgrade, rollback, uninstall
+   with any flags), every cluster behaviour, every write failure and every crash point *)
 Theorem C01_revisions_unique_any_program :
   forall (K : Type) (kh : forall e : eff, K -> K * resp e * list kev) (dresp : forall e, resp e)
          (A : Type) (f : sfaults) (p : prog A) (s : rstate K),
@@ -18,3 +38,213 @@ Theorem C01_revisions_unique :
     Forall (fun x => NoDup (revs (w_led (fst (fst x))))) (run_history rn ns h w).
 Proof. exact history_revisions_unique. Qed.
 Print Assumptions C01_revisions_unique.
+
+(* ------------------------------------------------------------------ *)
+(* 1. every created revision is the successor of the highest revision at operation start *)
+
+(* [dresp] is what a failed / dead storage call answers; the only thing assumed of it is that
+   a Create that did not happen does not report success *)
+Theorem C01_create_is_successor :
+  forall (K : Type) (kh : forall e : eff, K -> K * resp e * list kev) (dresp : forall e, resp e)
+         (f : sfaults),
+    (forall x, dresp (SCreate x) <> SOk) ->
+    forall (rn ns : string) (o : op) (l : list release) (k : K),
+      let c := creates (snd (run_op K kh dresp rn ns o f l k)) in
+      match o with
+      | OpInstall _ _ _ _ _ | OpRollback _ => c = [] \/ c = [S (mx l)]
+      | OpUpgrade fl _ _ _ _ =>
+          c = [] \/ c = [S (mx l)] \/ (f_atomic fl = true /\ c = [S (mx l); S (S (mx l))])
+      | OpUninstall _ => c = []
+      end.
+Proof. exact run_op_creates. Qed.
+Print Assumptions C01_create_is_successor.
+
+(* equivalently: above everything that existed when the operation started *)
+Theorem C01_created_above_all :
+  forall (K : Type) (kh : forall e : eff, K -> K * resp e * list kev) (dresp : forall e, resp e)
+         (f : sfaults),
+    (forall x, dresp (SCreate x) <> SOk) ->
+    forall (rn ns : string) (o : op) (l : list release) (k : K) (v : nat) (r : release),
+      In v (creates (snd (run_op K kh dresp rn ns o f l k))) -> In r l -> rev r < v.
+Proof. exact run_op_created_above. Qed.
+Print Assumptions C01_created_above_all.
+
+Example C01_dead_resp_honest : forall x, dead_resp (SCreate x) <> SOk.
+Proof. exact dead_resp_honest. Qed.
+Print Assumptions C01_dead_resp_honest.
+
+(* with pruning the revision just below the new one may be gone when the new one is created:
+   install; failed upgrade (2 failed); upgrade --history-max 1 deletes 2, then creates 3 *)
+Example C01_prune_gap :
+  views gap_history =
+    [ [(1, SDeployed)]; [(1, SDeployed); (2, SFailed)]; [(1, SSuperseded); (3, SDeployed)] ] /\
+  map (fun x => store_evs (snd x)) (run0 gap_history) =
+    [ [TStore "create" 1 SPendingInstall; TStore "update" 1 SDeployed];
+      [TStore "create" 2 SPendingUpgrade; TStore "update" 1 SDeployed; TStore "update" 2 SFailed];
+      [TStore "delete" 2 SUnknown; TStore "create" 3 SPendingUpgrade;
+       TStore "update" 1 SSuperseded; TStore "update" 3 SDeployed] ].
+Proof. exact prune_gap. Qed.
+Print Assumptions C01_prune_gap.
+
+(* ------------------------------------------------------------------ *)
+(* 2. at most one deployed revision                                     *)
+
+(* "_partial": under H1 (no injected storage-write failure; crashes anywhere and arbitrary
+   cluster behaviour are allowed) and H2 (no install --replace while a revision is deployed).
+   Without H1 or without H2 the statement is false in the model AND in Helm (K2, K1): the two
+   refutation lemmas below. *)
+Theorem C01_at_most_one_deployed_partial :
+  forall (K : Type) (kh : forall e : eff, K -> K * resp e * list kev) (dresp : forall e, resp e)
+         (rn ns : string) (h : list (op * sfaults)) (l : list release) (k : K),
+    NoDup (revs l) -> ndep l <= 1 ->
+    (forall o f, In (o, f) h -> wfail f = None) ->                       (* H1 *)
+    h2_hist K kh dresp rn ns h l k ->                                    (* H2 *)
+    Forall (fun r => ndep (res_led K r) <= 1) (run_ops K kh dresp rn ns h l k).
+Proof. exact run_ops_one_deployed. Qed.
+Print Assumptions C01_at_most_one_deployed_partial.
+
+(* the same over the object-store cluster with out-of-band edits between operations *)
+Theorem C01_at_most_one_deployed_history_partial :
+  forall (rn ns : string) (h : list hstep) (w : world),
+    NoDup (revs (w_led w)) -> ndep (w_led w) <= 1 ->
+    (forall c, In (HOp c) h -> wfail (oc_sf c) = None) ->                (* H1 *)
+    h2_history rn ns h w ->                                              (* H2 *)
+    Forall (fun x => ndep (w_led (fst (fst x))) <= 1) (run_history rn ns h w).
+Proof. exact history_one_deployed. Qed.
+Print Assumptions C01_at_most_one_deployed_history_partial.
+
+(* K1: H1 holds, H2 does not — install; upgrade failing in the wait; install --replace *)
+Lemma C01_two_deployed_replace_refuted :
+  exists h : list hstep,
+    (forall c, In (HOp c) h -> wfail (oc_sf c) = None) /\
+    map (fun x => ndep (w_led (fst (fst x)))) (run_history "rel" "default" h (mkW [] [])) = [1; 1; 2].
+Proof. exact two_deployed_replace_refuted. Qed.
+Print Assumptions C01_two_deployed_replace_refuted.
+
+(* K2: H2 holds, H1 does not — install; upgrade whose "superseded" write fails; both
+   operations report success *)
+Lemma C01_two_deployed_swallowed_write_refuted :
+  exists h : list hstep,
+    h2_history "rel" "default" h (mkW [] []) /\
+    map (fun x => ndep (w_led (fst (fst x)))) (run_history "rel" "default" h (mkW [] [])) = [1; 2] /\
+    map (fun x => snd (fst x)) (run_history "rel" "default" h (mkW [] [])) = [OOk; OOk].
+Proof. exact two_deployed_swallowed_write_refuted. Qed.
+Print Assumptions C01_two_deployed_swallowed_write_refuted.
+
+(* ------------------------------------------------------------------ *)
+(* 3. what a successful operation leaves behind (under H1, from a well-formed ledger) *)
+
+Theorem C01_success_postcondition :
+  forall (K : Type) (kh : forall e : eff, K -> K * resp e * list kev) (dresp : forall e, resp e)
+         (rn ns : string) (f : sfaults) (o : op) (l : list release) (k : K),
+    wfail f = None ->                                                    (* H1 *)
+    NoDup (revs l) -> ndep l <= 1 ->
+    h2_op o l ->                                                         (* H2 *)
+    let r := run_op K kh dresp rn ns o f l k in
+    let l' := res_led K r in
+    NoDup (revs l') /\ ndep l' <= 1 /\
+    (res_out K r = OOk -> f_dry_run (op_flags o) = false ->
+     match o with
+     | OpInstall fl cid vid mani hks | OpUpgrade fl cid vid mani hks =>
+         exists x, succ_new l l' x /\ prev_superseded l l' /\
+                   chart_id x = cid /\ config_id x = vid /\ manifest x = mani /\ hooks x = hks
+     | OpRollback fl =>
+         exists x pr, succ_new l l' x /\ prev_superseded l l' /\
+                      find (fun r => Nat.eqb (rev r) (rollback_target fl l)) l = Some pr /\
+                      same_content x pr
+     | OpUninstall fl =>
+         if f_keep_history fl
+         then exists x, In x l' /\ st x = SUninstalled /\ forall r, In r l' -> rev r <= rev x
+         else l' = []
+     end).
+Proof. exact run_op_D. Qed.
+Print Assumptions C01_success_postcondition.
+
+(* a non-trivial instance meeting the hypotheses: the pruning upgrade of C01_nonvacuous *)
+Example C01_success_postcondition_instance :
+  NoDup (revs l3) /\ ndep l3 <= 1 /\ h2_op op4 l3 /\ wfail nosf = None /\
+  f_dry_run (op_flags op4) = false /\
+  (let r := run_op kstate (kube_handle "rel" "default") dead_resp "rel" "default" op4 nosf l3
+                   (mkK [("ConfigMap/a", stamp_fields "rel" "default" [("d:k", "v1")])] None None false) in
+   res_out kstate r = OOk /\ view (res_led kstate r) = [(4, SSuperseded); (5, SDeployed)]).
+Proof. exact success_instance. Qed.
+Print Assumptions C01_success_postcondition_instance.
+
+(* without H1 "success" may leave the new record pending-install (K2) *)
+Example C01_success_needs_h1 :
+  views k2b_history = [ [(1, SPendingInstall)] ] /\ outs k2b_history = [OOk].
+Proof. exact success_needs_h1. Qed.
+Print Assumptions C01_success_needs_h1.
+
+(* ------------------------------------------------------------------ *)
+(* 4. pruning: Storage.Create with MaxHistory = S m                      *)
+
+(* (a) what the program does, without write failure and crash point: it deletes exactly
+       [pruned h m] and then creates (or reports the revision as existing) *)
+Theorem C01_prune_run :
+  forall (K : Type) (kh : forall e : eff, K -> K * resp e * list kev) (dresp : forall e, resp e)
+         (f : sfaults),
+    wfail f = None ->
+    forall (r : release) (m : nat) (s : rstate K),
+    crash f = None -> dead s = false -> NoDup (revs (led s)) ->
+    let kept := remove_all (pruned (led s) m) (led s) in
+    let s' := fst (run K kh dresp f (storage_create r (S m)) s) in
+    let e := snd (run K kh dresp f (storage_create r (S m)) s) in
+    dead s' = false /\
+    if has_rev (rev r) kept then e = SExists /\ led s' = kept
+    else e = SOk /\ led s' = (kept ++ [r])%list.
+Proof. exact storage_create_prune_run. Qed.
+Print Assumptions C01_prune_run.
+
+(* (b) what the choice guarantees *)
+Theorem C01_prune_spec :
+  forall (h : list release) (m : nat),
+    NoDup (revs h) ->
+    let del := pruned h m in
+    let kept := remove_all del h in
+    (* the definition: the toDelete loop over the revision-ordered history, protecting the
+       highest deployed revision; nothing when the history is within the limit *)
+    del = (if Nat.leb (List.length h) m then []
+           else prune_pick (sort_by_rev h) (deployed_rev h) (List.length h) m 0) /\
+    (forall x, In x kept <-> In x h /\ ~ In (rev x) del) /\
+    (* never the deployed revision *)
+    (forall d, deployed_rev h = Some d -> ~ In d del) /\
+    (* oldest first: every deleted revision is below every kept one other than the deployed *)
+    (forall v x, In v del -> In x kept -> deployed_rev h <> Some (rev x) -> v < rev x) /\
+    (* how many remain before the new record is added: m, so at most S m afterwards — except
+       1 (so S m + 1 = 2 afterwards) exactly when m = 0 and a deployed revision exists *)
+    List.length kept =
+      (if Nat.leb (List.length h) m then List.length h
+       else if Nat.eqb m 0 && is_some (deployed_rev h) then 1 else m).
+Proof. exact prune_spec_all. Qed.
+Print Assumptions C01_prune_spec.
+
+Example C01_prune_instance :
+  NoDup (revs l3) /\ deployed_rev l3 = Some 4 /\
+  pruned l3 1 = [1; 2; 3] /\ view (remove_all (pruned l3 1) l3) = [(4, SDeployed)] /\
+  pruned l3 0 = [1; 2; 3] /\ pruned l3 3 = [1] /\ pruned l3 4 = [].
+Proof. exact prune_instance. Qed.
+Print Assumptions C01_prune_instance.
+
+(* ------------------------------------------------------------------ *)
+(* 5. non-vacuity: a 10-operation history meeting H1 and H2 in which every clause acts *)
+
+Example C01_nonvacuous :
+  (forall c, In (HOp c) nv_history -> wfail (oc_sf c) = None) /\
+  h2_history "rel" "default" nv_history (mkW [] []) /\
+  views nv_history =
+    [ [(1, SDeployed)];
+      [(1, SDeployed); (2, SFailed)];
+      [(1, SSuperseded); (2, SFailed); (3, SFailed); (4, SDeployed)];
+      [(4, SSuperseded); (5, SDeployed)];
+      [(4, SSuperseded); (5, SDeployed); (6, SPendingUpgrade)];
+      [(4, SSuperseded); (5, SDeployed); (6, SPendingUpgrade)];
+      [(4, SSuperseded); (5, SSuperseded); (6, SPendingUpgrade); (7, SDeployed)];
+      [(4, SSuperseded); (5, SSuperseded); (6, SPendingUpgrade); (7, SUninstalled)];
+      [(4, SSuperseded); (5, SSuperseded); (6, SPendingUpgrade); (7, SSuperseded); (8, SDeployed)];
+      [] ] /\
+  outs nv_history = [OOk; OErr EOtherErr; OErr EOtherErr; OOk; OCrashed; OErr EPending; OOk; OOk; OOk; OOk] /\
+  created nv_history = [[1]; [2]; [3; 4]; [5]; [6]; []; [7]; []; [8]; []] /\
+  ndeps nv_history = [1; 1; 1; 1; 1; 1; 1; 0; 1; 0].
+Proof. exact nonvacuous. Qed.
+Print Assumptions C01_nonvacuous.
